@@ -76,6 +76,23 @@ namespace MEDDLY {
     or (more likely) to save space.
 
 */
+#ifdef MEDDLY_VERIF
+namespace MEDDLY {
+    /// Verification call-outs (null unless a monitor installs them).
+    namespace verif {
+        enum handle_event {
+            HANDLE_ISSUED       = 0,    ///< getFreeNodeHandle() is returning h
+            HANDLE_RECYCLED     = 1,    ///< recycleNodeHandle(h) was called
+            INCOUNT_UNDERFLOW   = 2,    ///< unlinkNode(h) with incoming count 0
+            CACHECOUNT_UNDERFLOW= 3     ///< uncacheNode(h) with cache count 0
+        };
+        typedef void (*handle_hook)(const void* forest, int event,
+                long handle, unsigned long incoming, unsigned long cached);
+        extern handle_hook on_handle;
+    }
+}
+#endif
+
 class MEDDLY::node_headers : public array_watcher {
     public:
         node_headers(forest &P, memstats &ms, statset &ss);
@@ -219,6 +236,12 @@ class MEDDLY::node_headers : public array_watcher {
 
             MEDDLY_DCASSERT(cache_counts);
 
+#ifdef MEDDLY_VERIF
+            if (verif::on_handle && 0==cache_counts->get(size_t(p))) {
+                verif::on_handle(&parent, verif::CACHECOUNT_UNDERFLOW, p,
+                    getIncomingCount(p), 0);
+            }
+#endif
             if (cache_counts->isPositiveAfterDecrement(size_t(p))) {
 #ifdef TRACK_CACHECOUNT
                 std::cerr << "\t-Node " << p << " is in " <<
@@ -292,6 +315,12 @@ class MEDDLY::node_headers : public array_watcher {
             MEDDLY_DCASSERT(isActive(p));
             MEDDLY_DCASSERT(incoming_counts);
 
+#ifdef MEDDLY_VERIF
+            if (verif::on_handle && 0==incoming_counts->get(size_t(p))) {
+                verif::on_handle(&parent, verif::INCOUNT_UNDERFLOW, p,
+                    0, getNodeCacheCount(p));
+            }
+#endif
             if (incoming_counts->isPositiveAfterDecrement(size_t(p))) {
 #ifdef TRACK_DELETIONS
                 std::cerr << "\t-Node " << p << " count now "
